@@ -61,19 +61,19 @@ theorem no_conflict_of_not_hasConflict {ls rs : Dict} (h : hasConflict ls rs = f
 
 /-- **one object per anchor name after resolution**: for loaded documents (`WF`), after a successful
 resolution any two anchored scalars anywhere in the two documents that bear the same name are the
-same object with the same value — for `left`, `right`, equal values, and for `rename` provided
-distinct conflicting names received distinct fresh names (`FreshInj`; the fresh names themselves are
-proved not to collide with any existing name).
-`resolved_oneObj_partial`: the general proof of `FreshInj` for `_calc_unique_anchor` is missing. -/
-theorem resolved_oneObj_partial (mode : Mode) (l r : ANode) (p : ANode × ANode)
+same object with the same value — under every policy.  (For `rename` this uses `freshInj`: distinct
+conflicting names receive distinct fresh names, none of which collides with an existing name.)
+The left document is assumed to be a container (a scalar-root left document is not updated by
+`replace_anchor`; merging into a scalar document is not a case the property speaks about). -/
+theorem resolved_oneObj (mode : Mode) (l r : ANode) (p : ANode × ANode)
     (hl : OneObj (occs l)) (hr : OneObj (occs r)) (hc : isContainer l = true)
-    (hinj : mode = .rename → FreshInj (knownOf (scan l) (scan r)))
     (h : resolve mode l r = .ok p) :
     OneObj (occs p.1 ++ occs p.2) := by
+  have hinj : mode = .rename → FreshInj (knownOf (scan l) (scan r)) := fun _ => freshInj _
   obtain ⟨h1, h2⟩ := resolve_is_policy mode l r p h
   rw [h1, h2, hc]
   simp only [if_true, occs_mapTags]
-  apply resolved_oneObj mode l r hl hr _ hinj
+  apply Ypv.Anchors.resolved_oneObj mode l r hl hr _ hinj
   intro hm
   apply no_conflict_of_not_hasConflict
   cases hcf : hasConflict (scan l) (scan r) with
